@@ -547,9 +547,10 @@ func (r *flushRun) attempt(sched []string, attemptNo int, random bool, rng *rand
 
 // runSchedule executes a scenario under one schedule, with retries after a failure, and writes the events.
 var flushRunID int
+var flushRunStep = 1 // run ids of different driver processes do not collide: part + k*parts
 
 func runSchedule(sc flushScenario, sched []string, out *json.Encoder, rng *rand.Rand) (enabled []string) {
-	flushRunID++
+	flushRunID += flushRunStep
 	sc.id = flushRunID
 	r := sc.build()
 	r.st.failProb = 0.03
@@ -619,7 +620,7 @@ func reachVia(p mast.Persist, nf string, name string, acc map[string]bool) {
 // foreignCacheCase: one cache shared by two stores with different prefixes (two harness stores, or two S3 persists on one bucket
 // that differ only in their object prefix). The second tree, with the same contents, must write all its nodes to its own store.
 func foreignCacheCase(id int, seed int64, out *json.Encoder) {
-	flushRunID++
+	flushRunID += flushRunStep
 	id = flushRunID
 	rng := rand.New(rand.NewSource(seed))
 	var cache mast.NodeCache = mast.NewNodeCache(4096)
@@ -702,6 +703,9 @@ func flushFamily(seed int64, n int, out *json.Encoder, budget int, scen int, par
 	// every case draws from its own generator, so that the cases can be split over several driver processes (part of parts)
 	id := 0
 	mine := func() bool { return parts <= 1 || id%parts == part }
+	if parts > 1 {
+		flushRunID, flushRunStep = part+1, parts
+	}
 	// 1. exhaustive schedules of small scenarios
 	per := budget / scen
 	for i := 0; i < scen; i++ {
